@@ -9,12 +9,13 @@ CONSTANTS
   RegClasses <- None
   RegBehs <- None
   MaxRegs = 0
-  RaiseClasses <- C3Raise
+  RaiseClasses <- C3RaiseSim
   RenderClasses <- C3Render
   Mro <- MCMro
   StatusOf <- MCStatus
   OwnVary <- MCOwnVary
   MaxReqs = 1
   WrongDesign = "none"
+  SameObj = FALSE
   MaxFaults = 4
 INVARIANT Emit
